@@ -114,6 +114,7 @@ var c04KindNames = map[c04Verdict]string{c04RejectedGrammatical: "rejected-gramm
 
 type c04Worker struct {
 	strict, liberal model.Recogniser
+	oneShot         bool // also require the one-shot Search to reject what must be rejected
 }
 
 func newC04Worker() *c04Worker {
@@ -141,7 +142,7 @@ func (w *c04Worker) judge(toks []model.Tok, style model.Style) (v c04Verdict, de
 	switch {
 	case gs && !accepted:
 		return c04RejectedGrammatical, fmt.Sprint(err), gs, gl
-	case !gl && !accepted && style == model.Tight:
+	case !gl && !accepted && style == model.Tight && w.oneShot:
 		// Compile rejects, as it must; the one-shot Search must not evaluate the text either
 		if _, serr, spn := impl.SearchOnce(text, map[string]interface{}{"a": 1.0}); spn == nil && serr == nil {
 			return c04AcceptedUngrammatical, "Compile rejects the text but jmespath.Search evaluates it (nil error)", gs, gl
@@ -371,10 +372,16 @@ func checkC04(r *harness.Run) harness.Coverage {
 		if n >= 6 {
 			styles = allStyles[:1] // 2.4e8 sequences: tight style only; the other styles are covered up to n=5
 		}
+		for _, w := range workers {
+			w.oneShot = n <= 5 // the one-shot entry point is ~10x more expensive per call; covered up to n=5
+		}
 		harness.Parallel(total, func(wk, i int) {
 			handle(wk, seqAt(blindAlphabet, n, i, make([]model.Tok, 0, 8)), styles)
 		})
 		completedBlind = n
+	}
+	for _, w := range workers {
+		w.oneShot = true
 	}
 	// ---- (3) structured spellings
 	completedRich := 0
